@@ -48,33 +48,15 @@ Definition empty_seq (n : node) : bool :=
   match n with T KSequence _ [] => true | _ => false end.
 Definition empty_prog (n : node) : bool :=
   match n with T KProgram _ [] => true | _ => false end.
-(* a switch cut off by the end of input: accepted with RightBrace = 0 *)
-Definition open_switch (n : node) : bool :=
-  match n with T KSwitch f _ => fz f 1 =? 0 | _ => false end.
-
-(* the node ends with a cut-off switch (its Idx1 is that switch's Idx1) *)
-Fixpoint tail_open (n : node) : bool :=
-  match n with
-  | T k f c =>
-      open_switch n ||
-      (fix go (l : list (child node)) (acc : bool) : bool :=
-         match l with
-         | [] => acc
-         | CNode m :: l' => go l' (tail_open m)
-         | _ :: l' => go l' acc
-         end) c false
-  end.
-
 (* a node whose span check fails for one of the recorded reasons *)
 Definition explained (n : node) : bool :=
-  empty_case n || empty_seq n || empty_prog n || tail_open n ||
-  existsb (fun m => empty_case m || empty_seq m || open_switch m) (present (kids_of n)).
+  empty_case n || empty_seq n || empty_prog n ||
+  existsb (fun m => empty_case m || empty_seq m) (present (kids_of n)).
 
 Definition span_class (t : node) (base len : Z) : Z :=
   let bad := filter (fun n => negb (local_ok_b n && in_file_b base len n)) (nodes t) in
   if negb (forallb explained bad) then 30
   else if empty_prog t then 2
-  else if existsb open_switch (nodes t) then 14
   else if existsb empty_case (nodes t) then 1
   else 3.
 
@@ -134,7 +116,9 @@ Fixpoint first_false (i : Z) (l : list bool) : option Z :=
 (* finding classes: 1 empty case clause (Idx1 panics), 2 empty program (Idx0/Idx1 panic),
    3 for(;;) initializer is an empty SequenceExpression (Idx0/Idx1 panic), 4 Walk hands a
    typed-nil node to the visitor, 11 continue to a label that is not an iteration statement's,
-   12, 13 pinned grammar probes, 14 a switch statement cut off by the end of input is accepted *)
+   12, 13, 15, 16 pinned grammar probes; 14 (a switch cut off by the end of input was accepted) is
+   repaired in otto: regression probes only, no span reason any more; 17 repaired C03-side parser
+   defects kept as must-accept regression probes *)
 Definition verdict (c : case) : Z * Z :=
   match c with
   | CSpan t base len obs tok_ok =>
